@@ -316,6 +316,16 @@ def probe_maps(gen, spec):
     # a recognised section without rich model next to STR (STRx), always present in one map
     extra2 = [(b"STRx", struct.pack("<III", 2, 12, 15) + b"ab\x00c\x00\x00")]
     out.append(("editor:probe-utf8-section-names", with_sections({}, extra + extra2)))
+    # 3b. unknown sections whose names differ from a recognised section's only in letter case (`strx`, `STRX`, `trig`,
+    #     `Upus`, `wav `, `UNIX`, `mrgn`): they are NOT those sections — unmodelled content, kept under its own name with
+    #     its own bytes, in place.  Payloads shaped like the look-alike's, so a reader that confuses them does not even fail.
+    strx_like = struct.pack("<III", 2, 12, 15) + b"ab\x00c\x00\x00"
+    one_trigger = refchk.build(L[b"TRIG"], {"triggers": [trig([dict(za, _action_id=1)])]})
+    lookalikes = [(b"strx", strx_like), (b"STRX", strx_like), (b"trig", one_trigger), (b"Upus", bytes([1, 0] * 32)), (b"wav ", bytes(2048)),
+                  (b"UNIX", dict(chunks).get(b"UNIx", dict(chunks).get(b"UNIS", b"")) or b"\x01\x02"), (b"mrgn", bytes(20 * 255))]
+    cs = list(chunks)
+    cs[2:2] = lookalikes[:3]
+    out.append(("editor:probe-section-names-differing-in-letter-case", refchk.join_chunks(cs + lookalikes[3:])))
     # 4. a string id whose offset lies outside the section (at its end / far beyond): the save raises, or the
     #    emitted table is valid -- never a table with an offset outside the section
     strp = dict(chunks)[b"STR "]
